@@ -148,6 +148,17 @@ def check_urlset(ctx, prog):
     seps = sorted(set(e['v'] for e in fn_exprs(pq) if e.get('k') == 'int' and e.get('chr')))
     ctx.check(set(seps) <= need | {32} and {ord('&'), ord('=')} <= set(seps), 'C15.urlset', pq['pq'], 'parseQuery:separators are escaped by params()', fwhere(pq), 'splits on %s' % [chr(x) for x in seps],
               'parseQuery splits/rewrites on %s, not all of which params() escapes' % [chr(x) for x in seps])
+    # '+' -> ' ' belongs to the raw query text: it must be applied before percent-decoding, never to a decoded key/value
+    plus_after = []
+    for e in fn_exprs(pq):
+        if e.get('k') == 'call' and (e.get('pq') or '').split('::')[-1] in ('replace', 'replaceme') and e.get('a') and any(w.get('k') == 'int' and w.get('v') == ord('+') for w in walk_expr(e['a'][0])):
+            if any(w.get('k') == 'call' and w.get('pq') == 'asl::Url::decode' for w in walk_expr(e.get('obj') or {})):
+                plus_after.append(e)
+    plus_before = [e for e in fn_exprs(pq) if e.get('k') == 'call' and (e.get('pq') or '').split('::')[-1] in ('replace', 'replaceme') and e.get('a') and any(w.get('k') == 'int' and w.get('v') == ord('+') for w in walk_expr(e['a'][0]))
+                   and e.get('obj') is not None and strip(e['obj']).get('k') == 'var' and strip(e['obj']).get('vk') == 'param']
+    decs = [e for e in fn_exprs(pq) if e.get('k') == 'call' and e.get('pq') == 'asl::Url::decode']
+    ctx.check(not plus_after and bool(plus_before) and len(decs) >= 2, 'C15.urlset', pq['pq'], "parseQuery:'+' rewritten before percent-decoding", fwhere(pq, plus_after[0]['l'] if plus_after else None),
+              "replace('+',' ') on the raw query, then decode key and value", "parseQuery rewrites '+' to a space after percent-decoding (or not on the raw text): a literal '+' that params() wrote as %2B comes back as a space")
     pr = fn1(prog, 'asl::Url::params', '(const asl::Dic<asl::String> &)')
     ctx.analysed(pr)
     encs = [e for e in fn_exprs(pr) if e.get('k') == 'call' and e.get('pq') == 'asl::Url::encode']
@@ -174,6 +185,13 @@ def loop_bound(f, lp):
     if lhs.get('k') != 'var' or lhs.get('id') != iv.get('id'):
         return None
     r = strip(rhs)
+    # a bound hoisted into a local initialised once (const int last = len - 64)
+    if r.get('k') == 'var' and r.get('vk') == 'local':
+        inits = [v for s_ in ir.walk_stmts(f['body']) if s_.get('k') == 'decl' for v in s_['vars'] if v['id'] == r['id'] and v.get('init') is not None]
+        writes = [e for e in fn_exprs(f) if e.get('k') == 'bin' and e.get('op', '').endswith('=') and e['op'] not in ('==', '!=', '<=', '>=') and strip_lv(e['x']).get('id') == r['id']]
+        if len(inits) == 1 and not writes:
+            rhs = inits[0]['init']
+            r = strip(rhs)
     if r.get('k') == 'bin' and r.get('op') == '-' and const_val(r['y']) is not None:
         k += const_val(r['y'])
         rhs = r['x']
